@@ -1,4 +1,927 @@
 import GateModel.C29.Model
 import GateModel.C29.Spec
+/-
+C29 helper lemmas (core Lean only).
+-/
 namespace Gate.C29
+open Gate
+
+/-! ## scanReplace / replaceAll -/
+section scan
+variable {α : Type} [DecidableEq α]
+
+theorem scanReplace_skip (ps : List (List α × List α)) (a r : List α) :
+    scanReplace ps a.length (a ++ r) = scanReplace ps 0 r := by
+  induction a with
+  | nil => rfl
+  | cons x a ih => simpa [scanReplace] using ih
+
+/-- two-character needle, no match at the current position -/
+theorem replace2_no (a b : α) (rep : List α) (c : α) (t : List α)
+    (h : ¬ (c = a ∧ t.head? = some b)) :
+    replaceAll [a, b] rep (c :: t) = c :: replaceAll [a, b] rep t := by
+  unfold replaceAll
+  have hp : List.isPrefixOf [a, b] (c :: t) = false := by
+    cases t with
+    | nil => simp [List.isPrefixOf]
+    | cons d t =>
+      simp only [List.isPrefixOf, Bool.and_true]
+      simp only [List.head?_cons, Option.some.injEq] at h
+      by_cases h1 : a = c
+      · by_cases h2 : b = d
+        · exact absurd ⟨h1.symm, h2.symm⟩ h
+        · simp [h2]
+      · simp [h1]
+  simp [scanReplace, hp]
+
+/-- two-character needle, match at the current position -/
+theorem replace2_yes (a b : α) (rep : List α) (t : List α) :
+    replaceAll [a, b] rep (a :: b :: t) = rep ++ replaceAll [a, b] rep t := by
+  unfold replaceAll
+  simp [scanReplace, List.isPrefixOf]
+
+theorem replace2_nil (a b : α) (rep : List α) : replaceAll [a, b] rep [] = [] := rfl
+
+end scan
+
+/-! ## the regular-expression text -/
+
+def renderElem : Elem → Str
+  | .lit c => if isMeta c then ['\\', c] else [c]
+  | .any => ['(', '.', ')']
+  | .star => ['(', '.', '*', '?', ')']
+
+/-- canonical text of an element sequence -/
+def render (es : List Elem) : Str := es.flatMap renderElem
+
+/-- the text after the first `ReplaceAll` (`?` done, `*` still escaped) -/
+def render1 : Str → Str
+  | [] => []
+  | c :: t => (if c = '?' then ['(', '.', ')'] else if isMeta c then ['\\', c] else [c]) ++ render1 t
+
+theorem notMeta_ne {c d : Char} (h : isMeta c = false) (hd : isMeta d = true) : c ≠ d := by
+  intro e; subst e; simp [h] at hd
+
+theorem quoteMeta_head (t : Str) (x : Char) (hx : isMeta x = true) (hx' : x ≠ '\\') :
+    (quoteMeta t).head? ≠ some x := by
+  cases t with
+  | nil => simp [quoteMeta]
+  | cons c t =>
+    unfold quoteMeta
+    by_cases hc : isMeta c = true
+    · simp [hc]; exact fun e => hx' e.symm
+    · have hc' : isMeta c = false := by simpa using hc
+      simp [hc']; exact notMeta_ne hc' hx
+
+theorem step1 (p : Str) : replaceAll ['\\', '?'] ['(', '.', ')'] (quoteMeta p) = render1 p := by
+  induction p with
+  | nil => rfl
+  | cons c t ih =>
+    unfold quoteMeta render1
+    by_cases hq : c = '?'
+    · subst hq
+      simp only [show isMeta '?' = true by decide, if_true]
+      rw [replace2_yes, ih]
+    · by_cases hm : isMeta c = true
+      · simp only [hm, if_true, hq, if_false]
+        rw [replace2_no _ _ _ _ _ (by simp [hq]),
+            replace2_no _ _ _ _ _ (by
+              intro ⟨_, h2⟩
+              exact quoteMeta_head t '?' (by decide) (by decide) h2), ih]
+        rfl
+      · have hm' : isMeta c = false := by simpa using hm
+        simp only [hm', hq, Bool.false_eq_true, if_false]
+        rw [replace2_no _ _ _ _ _ (by
+              intro ⟨h1, _⟩
+              exact notMeta_ne hm' (by decide) h1), ih]
+        rfl
+
+theorem render1_head (t : Str) : (render1 t ++ ['$']).head? ≠ some '*' := by
+  cases t with
+  | nil => decide
+  | cons c t =>
+    unfold render1
+    by_cases hq : c = '?'
+    · simp [hq]
+    · by_cases hm : isMeta c = true
+      · simp [hm, hq]
+      · have hm' : isMeta c = false := by simpa using hm
+        simp [hm', hq]; exact notMeta_ne hm' (by decide)
+
+theorem step2 (p : Str) :
+    replaceAll ['\\', '*'] ['(', '.', '*', '?', ')'] (render1 p ++ ['$']) = render (elems p) ++ ['$'] := by
+  induction p with
+  | nil => rfl
+  | cons c t ih =>
+    unfold render1 elems
+    by_cases hq : c = '?'
+    · subst hq
+      simp only [if_true, render, List.flatMap_cons, renderElem, List.cons_append, List.nil_append]
+      rw [replace2_no _ _ _ _ _ (by simp), replace2_no _ _ _ _ _ (by simp), replace2_no _ _ _ _ _ (by simp), ih]
+      rfl
+    · by_cases hs : c = '*'
+      · subst hs
+        simp only [show isMeta '*' = true by decide, if_true, hq, if_false, render, List.flatMap_cons, renderElem,
+          List.cons_append, List.nil_append]
+        rw [replace2_yes, ih]
+        rfl
+      · by_cases hm : isMeta c = true
+        · simp only [hm, if_true, hq, hs, if_false, render, List.flatMap_cons, renderElem, List.cons_append,
+            List.nil_append]
+          rw [replace2_no _ _ _ _ _ (by simp [hs]),
+              replace2_no _ _ _ _ _ (by
+                intro ⟨_, h2⟩
+                exact render1_head t h2), ih]
+          rfl
+        · have hm' : isMeta c = false := by simpa using hm
+          simp only [hm', hq, hs, Bool.false_eq_true, if_false, render, List.flatMap_cons, renderElem, List.cons_append, List.nil_append]
+          rw [replace2_no _ _ _ _ _ (by
+                intro ⟨h1, _⟩
+                exact notMeta_ne hm' (by decide) h1), ih]
+          rfl
+
+def rxPrefix (dotAll : Bool) : Str := if dotAll then ['(', '?', 's', ')', '^'] else ['^']
+
+/-- Theorem A: the text built by the two `ReplaceAll` calls is the canonical text of the glob's elements -/
+theorem globToRegex_eq (d : Bool) (p : Str) :
+    globToRegex d p = rxPrefix d ++ render (elems p) ++ ['$'] := by
+  unfold globToRegex
+  have e1 : "\\?".toList = ['\\', '?'] := by decide
+  have e2 : "(.)".toList = ['(', '.', ')'] := by decide
+  have e3 : "\\*".toList = ['\\', '*'] := by decide
+  have e4 : "(.*?)".toList = ['(', '.', '*', '?', ')'] := by decide
+  have e5 : "$".toList = ['$'] := by decide
+  have e6 : "(?s)^".toList = ['(', '?', 's', ')', '^'] := by decide
+  have e7 : "^".toList = ['^'] := by decide
+  simp only [e1, e2, e3, e4, e5, e6, e7, step1]
+  cases d
+  · simp only [Bool.false_eq_true, if_false, rxPrefix, List.cons_append, List.nil_append, List.append_assoc]
+    rw [replace2_no _ _ _ _ _ (by simp), step2]
+  · simp only [if_true, rxPrefix, List.cons_append, List.nil_append, List.append_assoc]
+    rw [replace2_no _ _ _ _ _ (by simp), replace2_no _ _ _ _ _ (by simp), replace2_no _ _ _ _ _ (by simp),
+        replace2_no _ _ _ _ _ (by simp), replace2_no _ _ _ _ _ (by simp), step2]
+
+/-- Theorem B: the parser reads the canonical text back as the element sequence -/
+theorem parseBody_render (es : List Elem) : parseBody (render es ++ ['$']) = some es := by
+  induction es with
+  | nil => simp [render, parseBody]
+  | cons e es ih =>
+    cases e with
+    | lit c =>
+      by_cases hm : isMeta c = true
+      · simp only [render, List.flatMap_cons, renderElem, hm, if_true, List.cons_append, List.nil_append]
+        unfold parseBody
+        simp only [show ('\\' : Char) ≠ '$' by decide, if_false, if_true, hm]
+        have := ih; simp only [render] at this; rw [this]; rfl
+      · have hm' : isMeta c = false := by simpa using hm
+        simp only [render, List.flatMap_cons, renderElem, hm', Bool.false_eq_true, if_false, List.cons_append, List.nil_append]
+        unfold parseBody
+        have h1 : c ≠ '$' := notMeta_ne hm' (by decide)
+        have h2 : c ≠ '\\' := notMeta_ne hm' (by decide)
+        have h3 : c ≠ '(' := notMeta_ne hm' (by decide)
+        simp only [h1, h2, h3, if_false, hm', Bool.false_eq_true]
+        have := ih; simp only [render] at this; rw [this]; rfl
+    | any =>
+      simp only [render, List.flatMap_cons, renderElem, List.cons_append, List.nil_append]
+      unfold parseBody
+      simp only [show ('(' : Char) ≠ '$' by decide, show ('(' : Char) ≠ '\\' by decide, if_false, if_true]
+      have := ih; simp only [render] at this; rw [this]; rfl
+    | star =>
+      simp only [render, List.flatMap_cons, renderElem, List.cons_append, List.nil_append]
+      unfold parseBody
+      simp only [show ('(' : Char) ≠ '$' by decide, show ('(' : Char) ≠ '\\' by decide, if_false, if_true]
+      have := ih; simp only [render] at this; rw [this]; rfl
+
+theorem parseRx_globToRegex (d : Bool) (p : Str) : parseRx (globToRegex d p) = some (d, elems p) := by
+  rw [globToRegex_eq]
+  cases d
+  · simp [rxPrefix, parseRx, parseBody_render]
+  · simp [rxPrefix, parseRx, parseBody_render]
+
+/-! ## the matcher against glob semantics -/
+
+theorem starLoop_some (ok : Char → Bool) (k : Str → Option Groups) (s : Str) (gs : Groups)
+    (h : starLoop ok k s = some gs) :
+    ∃ g rest tail, s = g ++ rest ∧ gs = g :: tail ∧ k rest = some tail ∧ (∀ c ∈ g, ok c = true) := by
+  induction s generalizing gs with
+  | nil =>
+    simp only [starLoop, Option.map_eq_some_iff] at h
+    obtain ⟨tail, hk, rfl⟩ := h
+    exact ⟨[], [], tail, rfl, rfl, hk, by simp⟩
+  | cons c t ih =>
+    unfold starLoop at h
+    cases hk : k (c :: t) with
+    | some gs' =>
+      simp only [hk, Option.some.injEq] at h
+      exact ⟨[], c :: t, gs', rfl, h.symm, hk, by simp⟩
+    | none =>
+      simp only [hk] at h
+      by_cases hc : ok c = true
+      · simp only [hc, if_true, Option.map_eq_some_iff] at h
+        obtain ⟨gs0, h0, rfl⟩ := h
+        obtain ⟨g, rest, tail, rfl, rfl, hk', hok⟩ := ih gs0 h0
+        refine ⟨c :: g, rest, tail, rfl, rfl, hk', ?_⟩
+        intro x hx
+        rcases List.mem_cons.mp hx with rfl | hx
+        · exact hc
+        · exact hok x hx
+      · simp [hc] at h
+
+theorem starLoop_complete (ok : Char → Bool) (k : Str → Option Groups) (g rest : Str)
+    (hk : (k rest).isSome) (hok : ∀ c ∈ g, ok c = true) : (starLoop ok k (g ++ rest)).isSome := by
+  induction g with
+  | nil =>
+    cases rest with
+    | nil =>
+      simp only [List.append_nil, starLoop]
+      cases h : k [] with
+      | none => simp [h] at hk
+      | some v => simp
+    | cons c t =>
+      simp only [List.nil_append, starLoop]
+      cases h : k (c :: t) with
+      | none => simp [h] at hk
+      | some v => simp
+  | cons c g ih =>
+    simp only [List.cons_append, starLoop]
+    cases h : k (c :: (g ++ rest)) with
+    | some v => simp
+    | none =>
+      have hc : ok c = true := hok c (by simp)
+      have := ih (fun x hx => hok x (by simp [hx]))
+      simp only [hc, if_true, Option.isSome_map]
+      exact this
+
+/-- the lazy star takes the shortest text after which the continuation succeeds -/
+theorem starLoop_min (ok : Char → Bool) (k : Str → Option Groups) (s g : Str) (tail : Groups)
+    (h : starLoop ok k s = some (g :: tail)) (g' rest' : Str) (hs : s = g' ++ rest')
+    (hk : (k rest').isSome) : g.length ≤ g'.length := by
+  induction s generalizing g g' tail with
+  | nil =>
+    simp only [starLoop, Option.map_eq_some_iff] at h
+    obtain ⟨_, _, h2⟩ := h
+    simp only [List.cons.injEq] at h2
+    simp [← h2.1]
+  | cons c t ih =>
+    unfold starLoop at h
+    cases hkc : k (c :: t) with
+    | some gs' =>
+      simp only [hkc, Option.some.injEq, List.cons.injEq] at h
+      simp [← h.1]
+    | none =>
+      simp only [hkc] at h
+      by_cases hc : ok c = true
+      · simp only [hc, if_true, Option.map_eq_some_iff] at h
+        obtain ⟨gs0, h0, h1⟩ := h
+        obtain ⟨g0, rest0, tail0, _, rfl, _, _⟩ := starLoop_some ok k t gs0 h0
+        simp only [consHead, List.cons.injEq] at h1
+        cases g' with
+        | nil =>
+          simp only [List.nil_append] at hs
+          subst hs
+          simp [hkc] at hk
+        | cons c' g1 =>
+          simp only [List.cons_append, List.cons.injEq] at hs
+          have := ih g0 tail0 h0 g1 hs.2
+          rw [← h1.1]
+          simp only [List.length_cons]
+          omega
+      · simp [hc] at h
+
+def okAll : Char → Bool := fun _ => true
+
+theorem rxMatch_sound (ok : Char → Bool) (es : List Elem) (s : Str) (gs : Groups)
+    (h : rxMatch ok es s = some gs) : inst es gs = some s := by
+  induction es generalizing s gs with
+  | nil =>
+    simp only [rxMatch] at h
+    cases s with
+    | nil => simp at h; subst h; rfl
+    | cons c t => simp at h
+  | cons e es ih =>
+    cases e with
+    | lit c =>
+      cases s with
+      | nil => simp [rxMatch] at h
+      | cons x t =>
+        simp only [rxMatch] at h
+        by_cases hx : x = c
+        · simp only [hx, if_true] at h
+          simp [inst, ih t gs h, hx]
+        · simp [hx] at h
+    | any =>
+      cases s with
+      | nil => simp [rxMatch] at h
+      | cons x t =>
+        simp only [rxMatch] at h
+        by_cases hx : ok x = true
+        · simp only [hx, if_true, Option.map_eq_some_iff] at h
+          obtain ⟨gs', h', rfl⟩ := h
+          simp [inst, ih t gs' h']
+        · simp [hx] at h
+    | star =>
+      simp only [rxMatch] at h
+      obtain ⟨g, rest, tail, rfl, rfl, hk, _⟩ := starLoop_some ok _ s gs h
+      simp [inst, ih rest tail hk]
+
+theorem inst_lit {c : Char} {p : List Elem} {gs : Groups} {s : Str} (h : inst (.lit c :: p) gs = some s) :
+    ∃ t, s = c :: t ∧ inst p gs = some t := by
+  cases gs <;> simp only [inst, Option.map_eq_some_iff] at h <;> obtain ⟨t, h1, rfl⟩ := h <;> exact ⟨t, rfl, h1⟩
+
+theorem inst_any {p : List Elem} {gs : Groups} {s : Str} (h : inst (.any :: p) gs = some s) :
+    ∃ x t gs', gs = [x] :: gs' ∧ s = x :: t ∧ inst p gs' = some t := by
+  match gs, h with
+  | [x] :: gs', h =>
+    simp only [inst, Option.map_eq_some_iff] at h
+    obtain ⟨t, h1, rfl⟩ := h
+    exact ⟨x, t, gs', rfl, rfl, h1⟩
+  | [] :: _, h => simp [inst] at h
+  | (_ :: _ :: _) :: _, h => simp [inst] at h
+  | [], h => simp [inst] at h
+
+theorem inst_star {p : List Elem} {gs : Groups} {s : Str} (h : inst (.star :: p) gs = some s) :
+    ∃ g t gs', gs = g :: gs' ∧ s = g ++ t ∧ inst p gs' = some t := by
+  cases gs with
+  | nil => simp [inst] at h
+  | cons g gs' =>
+    simp only [inst, Option.map_eq_some_iff] at h
+    obtain ⟨t, h1, rfl⟩ := h
+    exact ⟨g, t, gs', rfl, rfl, h1⟩
+
+theorem rxMatch_complete (es : List Elem) (s : Str) (gs : Groups)
+    (h : inst es gs = some s) : (rxMatch okAll es s).isSome := by
+  induction es generalizing s gs with
+  | nil =>
+    cases gs with
+    | nil => simp only [inst, Option.some.injEq] at h; subst h; simp [rxMatch]
+    | cons g gs => simp [inst] at h
+  | cons e es ih =>
+    cases e with
+    | lit c =>
+      obtain ⟨t, rfl, h1⟩ := inst_lit h
+      simp [rxMatch, ih t gs h1]
+    | any =>
+      obtain ⟨x, t, gs', rfl, rfl, h1⟩ := inst_any h
+      simp [rxMatch, okAll, ih t gs' h1]
+    | star =>
+      obtain ⟨g, t, gs', rfl, rfl, h1⟩ := inst_star h
+      simp only [rxMatch]
+      exact starLoop_complete okAll _ g t (ih t gs' h1) (by simp [okAll])
+
+theorem rxMatch_minimal (es : List Elem) (s : Str) (gs gs' : Groups)
+    (h : rxMatch okAll es s = some gs) (h' : inst es gs' = some s) :
+    lexLe (starLens es gs) (starLens es gs') := by
+  induction es generalizing s gs gs' with
+  | nil => simp [starLens, lexLe]
+  | cons e es ih =>
+    cases e with
+    | lit c =>
+      obtain ⟨t, rfl, h1⟩ := inst_lit h'
+      simp only [rxMatch, if_true] at h
+      have := ih t gs gs' h h1
+      cases gs <;> cases gs' <;> simpa [starLens] using this
+    | any =>
+      obtain ⟨x, t, gs1', rfl, rfl, h1⟩ := inst_any h'
+      simp only [rxMatch, okAll, if_true, Option.map_eq_some_iff] at h
+      obtain ⟨gs1, hm, rfl⟩ := h
+      simpa [starLens] using ih t gs1 gs1' hm h1
+    | star =>
+      obtain ⟨g', t', gs1', rfl, rfl, h1⟩ := inst_star h'
+      simp only [rxMatch] at h
+      obtain ⟨g, rest, tail, hs, rfl, hk, _⟩ := starLoop_some okAll _ _ gs h
+      have hle := starLoop_min okAll _ _ g tail h g' t' rfl (rxMatch_complete es t' gs1' h1)
+      simp only [starLens, lexLe]
+      by_cases hlt : g.length < g'.length
+      · exact Or.inl hlt
+      · have heq : g.length = g'.length := by omega
+        refine Or.inr ⟨heq, ?_⟩
+        have := List.append_inj hs.symm heq
+        obtain ⟨rfl, rfl⟩ := this
+        exact ih rest tail gs1' hk h1
+
+theorem starLoop_congr (ok1 ok2 : Char → Bool) (k1 k2 : Str → Option Groups) (s : Str)
+    (hok : ∀ c ∈ s, ok1 c = ok2 c) (hk : ∀ t, (∀ c ∈ t, c ∈ s) → k1 t = k2 t) :
+    starLoop ok1 k1 s = starLoop ok2 k2 s := by
+  induction s with
+  | nil => simp [starLoop, hk [] (by simp)]
+  | cons c t ih =>
+    unfold starLoop
+    rw [hk (c :: t) (fun _ h => h), hok c (by simp)]
+    rw [ih (fun x hx => hok x (by simp [hx])) (fun u hu => hk u (fun x hx => by simp [hu x hx]))]
+
+/-- the two variants agree on texts in which `.` behaves the same -/
+theorem rxMatch_congr (ok1 ok2 : Char → Bool) (es : List Elem) (s : Str)
+    (hok : ∀ c ∈ s, ok1 c = ok2 c) : rxMatch ok1 es s = rxMatch ok2 es s := by
+  induction es generalizing s with
+  | nil => rfl
+  | cons e es ih =>
+    cases e with
+    | lit c =>
+      cases s with
+      | nil => rfl
+      | cons x t => simp only [rxMatch]; rw [ih t (fun y hy => hok y (by simp [hy]))]
+    | any =>
+      cases s with
+      | nil => rfl
+      | cons x t =>
+        simp only [rxMatch]
+        rw [ih t (fun y hy => hok y (by simp [hy])), hok x (by simp)]
+    | star =>
+      simp only [rxMatch]
+      exact starLoop_congr ok1 ok2 _ _ s hok (fun t ht => ih t (fun c hc => hok c (ht c hc)))
+
+theorem starAccepts_eq (k : Str → Bool) (k' : Str → Option Groups) (hk : ∀ s, k s = (k' s).isSome) (s : Str) :
+    starAccepts k s = (starLoop okAll k' s).isSome := by
+  induction s with
+  | nil => simp [starAccepts, starLoop, hk]
+  | cons c t ih =>
+    simp only [starAccepts, starLoop, hk, ih]
+    cases k' (c :: t) <;> simp [okAll]
+
+/-- the boolean reference matcher agrees with the group-producing matcher -/
+theorem globAccepts_eq (es : List Elem) (s : Str) : globAccepts es s = (rxMatch okAll es s).isSome := by
+  induction es generalizing s with
+  | nil => cases s <;> simp [globAccepts, rxMatch]
+  | cons e es ih =>
+    cases e with
+    | lit c =>
+      cases s with
+      | nil => simp [globAccepts, rxMatch]
+      | cons x t =>
+        simp only [globAccepts, rxMatch, ih]
+        by_cases hx : x = c <;> simp [hx]
+    | any =>
+      cases s with
+      | nil => simp [globAccepts, rxMatch]
+      | cons x t => simp [globAccepts, rxMatch, ih, okAll]
+    | star =>
+      simp only [globAccepts, rxMatch]
+      exact starAccepts_eq _ _ (fun s => ih s) s
+
+/-! ## first-match search -/
+
+theorem findInHosts_none (m : Bytes → Option Groups) (j0 : Nat) (ps : List Bytes) :
+    findInHosts m j0 ps = none ↔ ∀ q ∈ ps, m q = none := by
+  induction ps generalizing j0 with
+  | nil => simp [findInHosts]
+  | cons q ps ih =>
+    unfold findInHosts
+    cases hq : m q with
+    | some gs => simp [hq]
+    | none => simp [hq, ih]
+
+theorem findInHosts_some (m : Bytes → Option Groups) (j0 : Nat) (ps : List Bytes) (j : Nat) (p : Bytes) (gs : Groups) :
+    findInHosts m j0 ps = some (j, p, gs) ↔
+      ∃ k, j = j0 + k ∧ ps[k]? = some p ∧ m p = some gs ∧ ∀ k' < k, ∀ q, ps[k']? = some q → m q = none := by
+  induction ps generalizing j0 with
+  | nil => simp [findInHosts]
+  | cons q ps ih =>
+    unfold findInHosts
+    cases hq : m q with
+    | some gs0 =>
+      simp only [Option.some.injEq, Prod.mk.injEq]
+      constructor
+      · rintro ⟨rfl, rfl, rfl⟩
+        exact ⟨0, rfl, rfl, hq, by omega⟩
+      · rintro ⟨k, rfl, hk, hm, hlt⟩
+        cases k with
+        | zero =>
+          simp only [List.getElem?_cons_zero, Option.some.injEq] at hk
+          subst hk
+          rw [hq] at hm
+          simp only [Option.some.injEq] at hm
+          exact ⟨rfl, rfl, hm⟩
+        | succ k =>
+          have := hlt 0 (by omega) q rfl
+          rw [hq] at this; cases this
+    | none =>
+      simp only []
+      rw [ih]
+      constructor
+      · rintro ⟨k, rfl, hk, hm, hlt⟩
+        refine ⟨k + 1, by omega, by simpa using hk, hm, ?_⟩
+        intro k' hk' q' hq'
+        cases k' with
+        | zero => simp only [List.getElem?_cons_zero, Option.some.injEq] at hq'; subst hq'; exact hq
+        | succ k' => exact hlt k' (by omega) q' (by simpa using hq')
+      · rintro ⟨k, rfl, hk, hm, hlt⟩
+        cases k with
+        | zero =>
+          simp only [List.getElem?_cons_zero, Option.some.injEq] at hk
+          subst hk; rw [hq] at hm; cases hm
+        | succ k =>
+          refine ⟨k, by omega, by simpa using hk, hm, ?_⟩
+          intro k' hk' q' hq'
+          exact hlt (k' + 1) (by omega) q' (by simpa using hq')
+
+theorem findRouteFrom_none (m : Bytes → Option Groups) (i0 : Nat) (rs : List Route) :
+    findRouteFrom m i0 rs = none ↔ ∀ r ∈ rs, ∀ q ∈ r.hosts, m q = none := by
+  induction rs generalizing i0 with
+  | nil => simp [findRouteFrom]
+  | cons r rs ih =>
+    unfold findRouteFrom
+    cases hr : findInHosts m 0 r.hosts with
+    | some v =>
+      obtain ⟨j, p, gs⟩ := v
+      simp only [reduceCtorEq, List.mem_cons, forall_eq_or_imp, false_iff, not_and]
+      intro hall
+      have := (findInHosts_none m 0 r.hosts).mpr hall
+      rw [hr] at this; cases this
+    | none =>
+      simp only [List.mem_cons, forall_eq_or_imp]
+      rw [ih]
+      exact ⟨fun h => ⟨(findInHosts_none m 0 r.hosts).mp hr, h⟩, fun h => h.2⟩
+
+/-- the characterisation of `FindRouteWithGroups`' answer: the lexicographically first (route, host pattern) that matches -/
+def IsFirstMatch (m : Bytes → Option Groups) (rs : List Route) (i j : Nat) (p : Bytes) (gs : Groups) : Prop :=
+  ∃ r, rs[i]? = some r ∧ r.hosts[j]? = some p ∧ m p = some gs ∧
+    (∀ j' < j, ∀ q, r.hosts[j']? = some q → m q = none) ∧
+    (∀ i' < i, ∀ r', rs[i']? = some r' → ∀ q ∈ r'.hosts, m q = none)
+
+theorem findRouteFrom_some (m : Bytes → Option Groups) (i0 : Nat) (rs : List Route) (i j : Nat) (p : Bytes) (gs : Groups) :
+    findRouteFrom m i0 rs = some (i, j, p, gs) ↔ ∃ k, i = i0 + k ∧ IsFirstMatch m rs k j p gs := by
+  induction rs generalizing i0 with
+  | nil => simp [findRouteFrom, IsFirstMatch]
+  | cons r rs ih =>
+    unfold findRouteFrom
+    cases hr : findInHosts m 0 r.hosts with
+    | some v =>
+      obtain ⟨j1, p1, gs1⟩ := v
+      have h1 := (findInHosts_some m 0 r.hosts j1 p1 gs1).mp hr
+      obtain ⟨k1, hj1, hk1, hm1, hlt1⟩ := h1
+      simp only [Nat.zero_add] at hj1
+      subst hj1
+      simp only [Option.some.injEq, Prod.mk.injEq]
+      constructor
+      · rintro ⟨rfl, rfl, rfl, rfl⟩
+        exact ⟨0, rfl, r, rfl, hk1, hm1, hlt1, by omega⟩
+      · rintro ⟨k, rfl, r', hr', hj, hm, hlt, hprev⟩
+        cases k with
+        | zero =>
+          simp only [List.getElem?_cons_zero, Option.some.injEq] at hr'
+          subst hr'
+          have h2 := (findInHosts_some m 0 r.hosts j p gs).mpr ⟨j, by omega, hj, hm, hlt⟩
+          rw [hr] at h2
+          simp only [Option.some.injEq, Prod.mk.injEq] at h2
+          exact ⟨rfl, h2.1, h2.2.1, h2.2.2⟩
+        | succ k =>
+          have := hprev 0 (by omega) r rfl p1 (List.mem_of_getElem? hk1)
+          rw [hm1] at this; cases this
+    | none =>
+      have hnone := (findInHosts_none m 0 r.hosts).mp hr
+      simp only []
+      rw [ih]
+      constructor
+      · rintro ⟨k, rfl, r', hr', hj, hm, hlt, hprev⟩
+        refine ⟨k + 1, by omega, r', by simpa using hr', hj, hm, hlt, ?_⟩
+        intro i' hi' r'' hr''
+        cases i' with
+        | zero => simp only [List.getElem?_cons_zero, Option.some.injEq] at hr''; subst hr''; exact hnone
+        | succ i' => exact hprev i' (by omega) r'' (by simpa using hr'')
+      · rintro ⟨k, rfl, r', hr', hj, hm, hlt, hprev⟩
+        cases k with
+        | zero =>
+          simp only [List.getElem?_cons_zero, Option.some.injEq] at hr'
+          subst hr'
+          have := hnone p (List.mem_of_getElem? hj)
+          rw [hm] at this; cases this
+        | succ k =>
+          refine ⟨k, by omega, r', by simpa using hr', hj, hm, hlt, ?_⟩
+          intro i' hi' r'' hr''
+          exact hprev (i' + 1) (by omega) r'' (by simpa using hr'')
+
+/-! ## ClearVirtualHost -/
+section clear
+variable {α : Type} [DecidableEq α]
+
+theorem beforeFirst_split (sep s : List α) :
+    ∃ rest, s = beforeFirst sep s ++ rest ∧ (rest = [] ∨ sep.isPrefixOf rest = true) := by
+  induction s with
+  | nil => exact ⟨[], rfl, Or.inl rfl⟩
+  | cons c t ih =>
+    unfold beforeFirst
+    by_cases h : sep.isPrefixOf (c :: t) = true
+    · simp only [h, if_true, List.nil_append]
+      exact ⟨c :: t, rfl, Or.inr h⟩
+    · simp only [h, Bool.false_eq_true, if_false]
+      obtain ⟨rest, h1, h2⟩ := ih
+      exact ⟨rest, by rw [List.cons_append, ← h1], h2⟩
+
+/-- the separator does not start anywhere inside the kept part -/
+theorem beforeFirst_no_sep (sep s : List α) (k : Nat) (hk : k < (beforeFirst sep s).length) :
+    sep.isPrefixOf (s.drop k) = false := by
+  induction s generalizing k with
+  | nil => simp [beforeFirst] at hk
+  | cons c t ih =>
+    unfold beforeFirst at hk
+    by_cases h : sep.isPrefixOf (c :: t) = true
+    · simp [h] at hk
+    · simp only [h, Bool.false_eq_true, if_false, List.length_cons] at hk
+      cases k with
+      | zero => simp only [List.drop_zero]; exact Bool.eq_false_iff.mpr h
+      | succ k => simpa using ih k (by omega)
+
+theorem trimLeft_spec (d : α) (s : List α) :
+    ∃ a, s = a ++ trimLeft d s ∧ (∀ x ∈ a, x = d) ∧ (trimLeft d s).head? ≠ some d := by
+  induction s with
+  | nil => exact ⟨[], rfl, by simp, by simp [trimLeft]⟩
+  | cons c t ih =>
+    unfold trimLeft
+    by_cases h : c = d
+    · simp only [h, if_true]
+      obtain ⟨a, h1, h2, h3⟩ := ih
+      exact ⟨d :: a, by rw [List.cons_append, ← h1], by simpa using h2, h3⟩
+    · simp only [h, if_false]
+      exact ⟨[], rfl, by simp, by simpa using h⟩
+
+theorem trim_spec (d : α) (s : List α) :
+    ∃ a b, s = a ++ trim d s ++ b ∧ (∀ x ∈ a, x = d) ∧ (∀ x ∈ b, x = d) ∧
+      (trim d s).head? ≠ some d ∧ (trim d s).getLast? ≠ some d := by
+  obtain ⟨a, h1, h2, h3⟩ := trimLeft_spec d s
+  obtain ⟨b, g1, g2, g3⟩ := trimLeft_spec d (trimLeft d s).reverse
+  have hu : trimLeft d s = trim d s ++ b.reverse := by
+    have := congrArg List.reverse g1
+    simpa [trim] using this
+  refine ⟨a, b.reverse, ?_, h2, ?_, ?_, ?_⟩
+  · rw [List.append_assoc, ← hu]; exact h1
+  · intro x hx; exact g2 x (by simpa using hx)
+  · intro hh
+    apply h3
+    rw [hu]
+    cases ht : trim d s with
+    | nil => simp [ht] at hh
+    | cons y ys => simpa [ht] using hh
+  · simpa [trim] using g3
+
+end clear
+
+/-! ## decimal numerals -/
+section dec
+variable {α : Type} [DecidableEq α]
+
+theorem decimalF_succ (digit : Nat → α) (f n : Nat) (h : n < f) :
+    decimalF digit (f + 1) n = decimalF digit f n := by
+  induction f generalizing n with
+  | zero => omega
+  | succ f ih =>
+    show (if n < 10 then [digit n] else decimalF digit (f + 1) (n / 10) ++ [digit (n % 10)]) =
+         (if n < 10 then [digit n] else decimalF digit f (n / 10) ++ [digit (n % 10)])
+    by_cases hn : n < 10
+    · simp [hn]
+    · simp only [hn, if_false]
+      rw [ih (n / 10) (by omega)]
+
+theorem decimalF_fuel (digit : Nat → α) (f n : Nat) (h : n < f) :
+    decimalF digit f n = decimalF digit (n + 1) n := by
+  induction f with
+  | zero => omega
+  | succ f ih =>
+    by_cases hf : n = f
+    · subst hf; rfl
+    · rw [decimalF_succ digit f n (by omega), ih (by omega)]
+
+/-- unfolding of `decimal` without fuel -/
+theorem decimal_eq (digit : Nat → α) (n : Nat) :
+    decimal digit n = if n < 10 then [digit n] else decimal digit (n / 10) ++ [digit (n % 10)] := by
+  unfold decimal
+  show (if n < 10 then [digit n] else decimalF digit n (n / 10) ++ [digit (n % 10)]) = _
+  by_cases hn : n < 10
+  · simp [hn]
+  · simp only [hn, if_false]
+    rw [decimalF_fuel digit n (n / 10) (by omega)]
+
+theorem decimal_ne_nil (digit : Nat → α) (n : Nat) : decimal digit n ≠ [] := by
+  rw [decimal_eq]; by_cases hn : n < 10 <;> simp [hn]
+
+theorem decimal_length_ge2 (digit : Nat → α) (n : Nat) (hn : 10 ≤ n) : 2 ≤ (decimal digit n).length := by
+  rw [decimal_eq]
+  have : ¬ n < 10 := by omega
+  simp only [this, if_false, List.length_append, List.length_cons, List.length_nil]
+  have := decimal_ne_nil digit (n / 10)
+  have : 0 < (decimal digit (n / 10)).length := List.length_pos_iff.mpr this
+  omega
+
+theorem decimal_all (digit : Nat → α) (P : α → Prop) (hP : ∀ d, d < 10 → P (digit d)) (n : Nat) :
+    ∀ x ∈ decimal digit n, P x := by
+  induction n using Nat.strongRecOn with
+  | _ n ih =>
+    rw [decimal_eq]
+    by_cases hn : n < 10
+    · simp only [hn, if_true, List.mem_singleton]; rintro x rfl; exact hP n hn
+    · simp only [hn, if_false, List.mem_append, List.mem_singleton]
+      rintro x (hx | rfl)
+      · exact ih (n / 10) (by omega) x hx
+      · exact hP _ (by omega)
+
+theorem decimal_inj (digit : Nat → α) (hinj : ∀ a b, a < 10 → b < 10 → digit a = digit b → a = b) (i k : Nat)
+    (h : decimal digit i = decimal digit k) : i = k := by
+  induction i using Nat.strongRecOn generalizing k with
+  | _ i ih =>
+    by_cases hi : i < 10
+    · by_cases hk : k < 10
+      · rw [decimal_eq digit i, decimal_eq digit k] at h
+        simp only [hi, hk, if_true, List.cons.injEq, and_true] at h
+        exact hinj i k hi hk h
+      · have h2 := decimal_length_ge2 digit k (by omega)
+        rw [← h, decimal_eq digit i] at h2
+        simp [hi] at h2
+    · by_cases hk : k < 10
+      · have h2 := decimal_length_ge2 digit i (by omega)
+        rw [h, decimal_eq digit k] at h2
+        simp [hk] at h2
+      · rw [decimal_eq digit i, decimal_eq digit k] at h
+        simp only [hi, hk, if_false] at h
+        have h3 := List.append_inj' h rfl
+        have e1 := ih (i / 10) (by omega) (k / 10) h3.1
+        have e2 := hinj (i % 10) (k % 10) (Nat.mod_lt _ (by omega)) (Nat.mod_lt _ (by omega)) (by simpa using h3.2)
+        omega
+
+/-- a numeral that is a prefix of another numeral denotes a number that is not larger -/
+theorem decimal_prefix_le (digit : Nat → α) (hinj : ∀ a b, a < 10 → b < 10 → digit a = digit b → a = b) (i k : Nat)
+    (h : decimal digit i <+: decimal digit k) : i ≤ k := by
+  induction k using Nat.strongRecOn with
+  | _ k ih =>
+    by_cases hk : k < 10
+    · rw [decimal_eq digit k] at h
+      simp only [hk, if_true] at h
+      have hne := decimal_ne_nil digit i
+      have : decimal digit i = [digit k] := by
+        obtain ⟨t, ht⟩ := h
+        cases hd : decimal digit i with
+        | nil => exact absurd hd hne
+        | cons x xs =>
+          rw [hd] at ht
+          simp only [List.cons_append, List.cons.injEq, List.append_eq_nil_iff] at ht
+          rw [ht.1, ht.2.1]
+      have e : decimal digit i = decimal digit k := by
+        rw [this, decimal_eq digit k]; simp [hk]
+      exact Nat.le_of_eq (decimal_inj digit hinj i k e)
+    · rw [decimal_eq digit k] at h
+      simp only [hk, if_false] at h
+      rcases List.prefix_concat_iff.mp h with h1 | h1
+      · have e : decimal digit i = decimal digit k := by
+          rw [h1, decimal_eq digit k]; simp [hk]
+        exact Nat.le_of_eq (decimal_inj digit hinj i k e)
+      · have := ih (k / 10) (by omega) h1
+        have : k / 10 ≤ k := Nat.div_le_self k 10
+        omega
+
+end dec
+
+/-! ## parameter substitution on bytes -/
+
+theorem digitByte_inj : ∀ a b, a < 10 → b < 10 → digitByte a = digitByte b → a = b := by
+  intro a b ha hb h
+  have key : ∀ x : Fin 10, ∀ y : Fin 10, digitByte x.val = digitByte y.val → x = y := by decide
+  have := key ⟨a, ha⟩ ⟨b, hb⟩ h
+  exact congrArg Fin.val this
+
+theorem digitByte_isDigit : ∀ d, d < 10 → isDigitByte (digitByte d) = true := by
+  intro d hd
+  have key : ∀ x : Fin 10, isDigitByte (digitByte x.val) = true := by decide
+  exact key ⟨d, hd⟩
+
+abbrev par (k : Nat) : Bytes := param dollarByte digitByte k
+abbrev dec (k : Nat) : Bytes := decimal digitByte k
+
+theorem prefix_of_digits (a b rest : Bytes) (ha : ∀ x ∈ a, isDigitByte x = true)
+    (hr : ∀ x, rest.head? = some x → isDigitByte x = false) (h : a <+: b ++ rest) : a <+: b := by
+  induction b generalizing a with
+  | nil =>
+    cases a with
+    | nil => exact List.prefix_refl _
+    | cons x a' =>
+      simp only [List.nil_append] at h
+      obtain ⟨t, ht⟩ := h
+      have hx := ha x (by simp)
+      have : rest.head? = some x := by rw [← ht]; rfl
+      rw [hr x this] at hx; cases hx
+  | cons y b' ih =>
+    cases a with
+    | nil => exact List.nil_prefix
+    | cons x a' =>
+      simp only [List.cons_append] at h
+      rw [List.cons_prefix_cons] at h ⊢
+      exact ⟨h.1, ih a' (fun z hz => ha z (by simp [hz])) h.2⟩
+
+/-- a higher-numbered parameter is not a prefix where `$k` stands, unless a digit follows -/
+theorem par_not_prefix (j k : Nat) (rest : Bytes) (hjk : k < j)
+    (hr : ∀ x, rest.head? = some x → isDigitByte x = false) :
+    (par j).isPrefixOf (par k ++ rest) = false := by
+  apply Bool.eq_false_iff.mpr
+  intro h
+  rw [List.isPrefixOf_iff_prefix] at h
+  simp only [par, param, List.cons_append, List.cons_prefix_cons, true_and] at h
+  have h2 := prefix_of_digits (dec j) (dec k) rest
+    (decimal_all digitByte (fun x => isDigitByte x = true) digitByte_isDigit j) hr h
+  have := decimal_prefix_le digitByte digitByte_inj j k h2
+  omega
+
+theorem mem_paramPairsFrom (i : Nat) (gs : List Bytes) (p : Bytes × Bytes)
+    (h : p ∈ paramPairsFrom dollarByte digitByte i gs) : ∃ j, i ≤ j ∧ j < i + gs.length ∧ p.1 = par j := by
+  induction gs generalizing i with
+  | nil => simp [paramPairsFrom] at h
+  | cons g gs ih =>
+    simp only [paramPairsFrom, List.mem_append, List.mem_singleton] at h
+    rcases h with h | rfl
+    · obtain ⟨j, h1, h2, h3⟩ := ih (i + 1) h
+      exact ⟨j, by omega, by simp only [List.length_cons]; omega, h3⟩
+    · exact ⟨i, by omega, by simp only [List.length_cons]; omega, rfl⟩
+
+theorem find_param (gs : List Bytes) (i k : Nat) (rest : Bytes) (hik : i ≤ k) (hk : k < i + gs.length)
+    (hr : ∀ x, rest.head? = some x → isDigitByte x = false) :
+    (paramPairsFrom dollarByte digitByte i gs).find? (fun p => p.1.isPrefixOf (par k ++ rest)) =
+      some (par k, gs.getD (k - i) []) := by
+  induction gs generalizing i with
+  | nil => simp only [List.length_nil] at hk; omega
+  | cons g gs ih =>
+    simp only [paramPairsFrom, List.find?_append]
+    by_cases hki : k = i
+    · subst hki
+      have hnone : (paramPairsFrom dollarByte digitByte (k + 1) gs).find?
+          (fun p => p.1.isPrefixOf (par k ++ rest)) = none := by
+        rw [List.find?_eq_none]
+        intro p hp
+        obtain ⟨j, h1, _, h3⟩ := mem_paramPairsFrom (k + 1) gs p hp
+        rw [h3, par_not_prefix j k rest (by omega) hr]
+        simp
+      rw [hnone]
+      have hpre : (par k).isPrefixOf (par k ++ rest) = true := by
+        rw [List.isPrefixOf_iff_prefix]; exact List.prefix_append _ _
+      simp [List.find?, hpre]
+    · have := ih (i + 1) (by omega) (by simp only [List.length_cons] at hk; omega)
+      rw [this]
+      have e : k - i = (k - (i + 1)) + 1 := by omega
+      simp [e]
+
+theorem no_param_at_literal (gs : List Bytes) (i : Nat) (b : UInt8) (t : Bytes) (hb : b ≠ dollarByte) :
+    (paramPairsFrom dollarByte digitByte i gs).find? (fun p => p.1.isPrefixOf (b :: t)) = none := by
+  rw [List.find?_eq_none]
+  intro p hp
+  obtain ⟨j, _, _, h3⟩ := mem_paramPairsFrom i gs p hp
+  rw [h3]
+  simp only [par, param, List.isPrefixOf]
+  have : (dollarByte == b) = false := by
+    apply Bool.eq_false_iff.mpr
+    intro h; exact hb (eq_of_beq h).symm
+  simp [this]
+
+theorem renderToks_head_not_digit (n : Nat) (k : Nat) (ts : List Tok)
+    (hu : unambiguous n (.ref k :: ts) = true) :
+    ∀ x, (renderToks ts).head? = some x → isDigitByte x = false := by
+  intro x hx
+  cases ts with
+  | nil => simp [renderToks] at hx
+  | cons t ts =>
+    cases t with
+    | lit b =>
+      simp only [renderToks, List.flatMap_cons, renderTok, List.cons_append, List.nil_append, List.head?_cons,
+        Option.some.injEq] at hx
+      subst hx
+      simp only [unambiguous, Bool.and_eq_true, Bool.not_eq_true'] at hu
+      exact hu.2
+    | ref k' =>
+      simp only [renderToks, List.flatMap_cons, renderTok, param, List.cons_append, List.head?_cons,
+        Option.some.injEq] at hx
+      subst hx
+      decide
+
+theorem unambiguous_tail (n : Nat) (t : Tok) (ts : List Tok) (hu : unambiguous n (t :: ts) = true) :
+    unambiguous n ts = true := by
+  cases t with
+  | lit b => simp only [unambiguous, Bool.and_eq_true] at hu; exact hu.2
+  | ref k => simp only [unambiguous, Bool.and_eq_true] at hu; exact hu.1.2
+
+/-- single-pass substitution expands an unambiguous tokenised template to literals and referenced groups -/
+theorem scan_tokens (groups : List Bytes) (toks : List Tok) (hu : unambiguous groups.length toks = true) :
+    scanReplace (paramPairs dollarByte digitByte groups) 0 (renderToks toks) = expandToks groups toks := by
+  induction toks with
+  | nil => rfl
+  | cons t ts ih =>
+    have ih' := ih (unambiguous_tail _ t ts hu)
+    cases t with
+    | lit b =>
+      have hb : b ≠ dollarByte := by
+        simp only [unambiguous, Bool.and_eq_true, bne_iff_ne, ne_eq] at hu
+        exact hu.1
+      simp only [renderToks, expandToks, List.flatMap_cons, renderTok, expandTok, List.cons_append,
+        List.nil_append]
+      simp only [scanReplace, paramPairs, no_param_at_literal groups 1 b _ hb]
+      congr 1
+    | ref k =>
+      have hk : 1 ≤ k ∧ k ≤ groups.length := by
+        simp only [unambiguous, Bool.and_eq_true, decide_eq_true_eq] at hu
+        exact ⟨hu.1.1.1, hu.1.1.2⟩
+      have hr := renderToks_head_not_digit _ k ts hu
+      have hf := find_param groups 1 k (renderToks ts) hk.1 (by omega) hr
+      simp only [renderToks, expandToks, List.flatMap_cons, renderTok, expandTok, hk, and_self, if_true]
+      show scanReplace _ 0 (dollarByte :: (dec k ++ renderToks ts)) = _
+      have hf' : (paramPairs dollarByte digitByte groups).find?
+          (fun p => p.1.isPrefixOf (dollarByte :: (dec k ++ renderToks ts))) = some (par k, groups.getD (k - 1) []) := hf
+      simp only [scanReplace, hf']
+      have hl : (par k).length - 1 = (dec k).length := by simp [par, param]
+      rw [hl, scanReplace_skip]
+      rw [ih']
+      rfl
+
 end Gate.C29
